@@ -308,6 +308,41 @@ class CycThree(Component):
     @update
     def upC(): s.c @= s.in_
     s.add_constraints( U(upA) < U(upB), U(upB) < U(upC), U(upC) < U(upA) )
+class CycTwoOut(Component):         # the cycle is value-less, but one member drives a signal read OUTSIDE the cycle
+  def construct(s):
+    s.in_ = InPort(8); s.a = Wire(8); s.b = Wire(8); s.out = OutPort(8)
+    @update
+    def upA(): s.a @= s.in_ + 1
+    @update
+    def upB(): s.b @= s.in_
+    @update
+    def upD(): s.out @= s.a + 1
+    s.add_constraints( U(upA) < U(upB), U(upB) < U(upA) )
+class CycTwoIn(Component):          # ... one member reads a signal written OUTSIDE the cycle
+  def construct(s):
+    s.in_ = InPort(8); s.a = Wire(8); s.b = Wire(8); s.pre = Wire(8)
+    @update
+    def upP(): s.pre @= s.in_ ^ 3
+    @update
+    def upA(): s.a @= s.pre
+    @update
+    def upB(): s.b @= s.in_
+    s.add_constraints( U(upA) < U(upB), U(upB) < U(upA) )
+class CycThreeInOut(Component):     # ... both, on a three-block cycle, with nets
+  def construct(s):
+    s.in_ = InPort(8); s.a = Wire(8); s.b = Wire(8); s.c = Wire(8); s.pre = Wire(8); s.out = OutPort(8); s.o2 = OutPort(8)
+    @update
+    def upP(): s.pre @= s.in_ ^ 3
+    @update
+    def upA(): s.a @= s.pre
+    @update
+    def upB(): s.b @= s.in_
+    @update
+    def upC(): s.c @= s.pre + 1
+    @update
+    def upD(): s.out @= s.b + s.c
+    s.o2 //= s.a
+    s.add_constraints( U(upA) < U(upB), U(upB) < U(upC), U(upC) < U(upA) )
 class CycMixed(Component):          # explicit constraint against a value dependence: a cycle with only one value edge
   def construct(s):
     s.in_ = InPort(8); s.a = Wire(8); s.b = Wire(8)
@@ -335,7 +370,7 @@ def item_cyclic(it):
   from vlib.ffreplay import apply_group
   import pymtl3.passes.sim.SimpleSchedulePass as SSP
   SSP.dump_dag = lambda *a, **k: None        # the error path renders and OPENS a graphviz picture (xdg-open): I/O stub
-  for cn in ('CycTwo', 'CycThree'):
+  for cn in ('CycTwo', 'CycThree', 'CycTwoOut', 'CycTwoIn', 'CycThreeInOut'):
     for g in GROUP_NAMES:
       res['obligations'] += 1; res['states'] += 1
       try:
